@@ -1,5 +1,5 @@
 // C15 (tetrahedral kernel): base meshes built through the TETRAHEDRAL kernel's own API, brute-force reference helpers over the
-// snapshot of the stored top-down definitions (mesh_common.h), permutation parity, independent label tables.
+// snapshot of the stored top-down definitions (mesh_common.h), permutation parity.
 #pragma once
 #include "mesh_common.h"
 #include <OpenVolumeMesh/Mesh/TetrahedralMeshTopologyKernel.hh>
@@ -28,44 +28,98 @@ static void build_tets(TetMesh &m, unsigned b) {
   }
 }
 
-// --------------------------------------------------------------------------- brute force on the snapshot
-// (constant loop bounds + guards: callable with symbolic indices)
-// k-th vertex of halfface hfh = from-vertex of its k-th halfedge (stored definition)
-static inline int bf_hf_v(const Snap &s, int hfh, int k) { return snap_he_from(s, snap_hf_he(s, hfh, k)); }
-static inline bool bf_hf_has_v(const Snap &s, int hfh, int v) { return bf_hf_v(s, hfh, 0) == v || bf_hf_v(s, hfh, 1) == v || bf_hf_v(s, hfh, 2) == v; }
-// position of v in the triangle hfh (-1 if absent)
-static inline int bf_hf_pos(const Snap &s, int hfh, int v) { return bf_hf_v(s, hfh, 0) == v ? 0 : (bf_hf_v(s, hfh, 1) == v ? 1 : (bf_hf_v(s, hfh, 2) == v ? 2 : -1)); }
-// is every face a triangle, every cell made of 4 halffaces (over ALL stored entities, deleted or not)
-static inline bool bf_shape_ok(const Snap &s) {
-  bool ok = !s.overflow;
-  for (int f = 0; f < MAXF; ++f) if (f < s.nF && s.fval[f] != 3) ok = false;
-  for (int c = 0; c < MAXC; ++c) if (c < s.nC && s.cval[c] != 4) ok = false;
-  return ok;
+// --------------------------------------------------------------------------- reference tables
+// The definition side of every oracle: flat GLOBAL arrays derived from the snapshot (which is read off the stored edge / face / cell
+// definitions).  Flat 1-D globals on purpose: they are read at SYMBOLIC indices, and CBMC 6.11 mis-evaluates hoisted address
+// computations into 2-D arrays inside structs (HARNESS_GUIDE "known traps").  Only meaningful if every face has valence 3 and every
+// cell valence 4 (R_ok).
+enum { RHF = 2 * MAXF, RHE = 2 * MAXE };
+static int R_nV, R_nE, R_nF, R_nC;
+static bool R_ok;
+static int R_hefrom[RHE], R_heto[RHE];      // halfedge -> from / to vertex
+static bool R_edel[MAXE], R_fdel[MAXF], R_cdel[MAXC], R_vdel[MAXV];
+static int R_hfhe[RHF * 3];                 // halfface h, position k -> halfedge   (side 1 = reversed list of opposite halfedges)
+static int R_hfv[RHF * 3];                  // halfface h, position k -> from-vertex of that halfedge
+static int R_chf[MAXC * 4];                 // cell c, position k -> halfface
+static int R_ic[RHF];                       // halfface -> the live cell listing it (-1 none, -2 several)
+
+static void ref_build(const Snap &s) {
+  R_ok = !s.overflow;
+  if (s.overflow) return;
+  R_nV = s.nV; R_nE = s.nE; R_nF = s.nF; R_nC = s.nC;
+  for (int v = 0; v < s.nV; ++v) R_vdel[v] = s.vdel[v];
+  for (int e = 0; e < s.nE; ++e) {
+    R_edel[e] = s.edel[e];
+    R_hefrom[2 * e] = s.efrom[e]; R_heto[2 * e] = s.eto[e];
+    R_hefrom[2 * e + 1] = s.eto[e]; R_heto[2 * e + 1] = s.efrom[e];
+  }
+  for (int f = 0; f < s.nF; ++f) {
+    R_fdel[f] = s.fdel[f];
+    if (s.fval[f] != 3) { R_ok = false; continue; }
+    for (int k = 0; k < 3; ++k) {
+      int h0 = s.fhe[f][k], h1 = s.fhe[f][2 - k] ^ 1;
+      R_hfhe[(2 * f) * 3 + k] = h0; R_hfhe[(2 * f + 1) * 3 + k] = h1;
+      R_hfv[(2 * f) * 3 + k] = (h0 & 1) ? s.eto[h0 >> 1] : s.efrom[h0 >> 1];
+      R_hfv[(2 * f + 1) * 3 + k] = (h1 & 1) ? s.eto[h1 >> 1] : s.efrom[h1 >> 1];
+    }
+    R_ic[2 * f] = -1; R_ic[2 * f + 1] = -1;
+  }
+  for (int c = 0; c < s.nC; ++c) {
+    R_cdel[c] = s.cdel[c];
+    if (s.cval[c] != 4) { R_ok = false; continue; }
+    for (int k = 0; k < 4; ++k) {
+      int h = s.chf[c][k];
+      R_chf[c * 4 + k] = h;
+      if (!s.cdel[c]) R_ic[h] = (R_ic[h] == -1) ? c : -2;
+    }
+  }
 }
-// the vertex of cell c (valence 4, triangles) that does not lie on its halfface hfh; -1 if none, -2 if several
-static inline int bf_apex(const Snap &s, int c, int hfh) {
+
+// helpers: constant loop bounds, single loads from the flat tables -> callable with symbolic indices
+static inline int r_he_from(int he) { return R_hefrom[he]; }
+static inline int r_he_to(int he) { return R_heto[he]; }
+static inline int r_hf_he(int h, int k) { return R_hfhe[h * 3 + k]; }
+static inline int r_hf_v(int h, int k) { return R_hfv[h * 3 + k]; }
+static inline bool r_hf_has_v(int h, int v) { return r_hf_v(h, 0) == v || r_hf_v(h, 1) == v || r_hf_v(h, 2) == v; }
+static inline int r_hf_pos(int h, int v) { return r_hf_v(h, 0) == v ? 0 : (r_hf_v(h, 1) == v ? 1 : (r_hf_v(h, 2) == v ? 2 : -1)); }
+static inline int r_hf_pos_he(int h, int he) { return r_hf_he(h, 0) == he ? 0 : (r_hf_he(h, 1) == he ? 1 : (r_hf_he(h, 2) == he ? 2 : -1)); }
+static inline int r_chf(int c, int k) { return R_chf[c * 4 + k]; }
+static inline bool r_cell_has_hf(int c, int h) { return r_chf(c, 0) == h || r_chf(c, 1) == h || r_chf(c, 2) == h || r_chf(c, 3) == h; }
+static inline bool r_cell_has_v(int c, int v) { return r_hf_has_v(r_chf(c, 0), v) || r_hf_has_v(r_chf(c, 1), v) || r_hf_has_v(r_chf(c, 2), v) || r_hf_has_v(r_chf(c, 3), v); }
+static inline bool r_live_tet(int c) { return R_ok && c >= 0 && c < R_nC && !R_cdel[c]; }
+// the vertex of cell c that does not lie on halfface h; -1 if none, -2 if several
+static inline int r_apex(int c, int h) {
   int r = -1;
   for (int k = 0; k < 4; ++k) for (int j = 0; j < 3; ++j) {
-    int v = bf_hf_v(s, s.chf[c][k], j);
-    if (!bf_hf_has_v(s, hfh, v)) { if (r == -1 || r == v) r = v; else r = -2; }
+    int v = r_hf_v(r_chf(c, k), j);
+    if (!r_hf_has_v(h, v)) { if (r == -1 || r == v) r = v; else r = -2; }
   }
   return r;
 }
-static inline bool bf_cell_has_v(const Snap &s, int c, int v) {
-  bool r = false;
-  for (int k = 0; k < 4; ++k) if (bf_hf_has_v(s, s.chf[c][k], v)) r = true;
+// exactly four distinct vertices: the first halfface has three distinct ones and everything else on the cell is one further vertex
+static inline bool r_cell_4verts(int c) {
+  int F = r_chf(c, 0), a = r_hf_v(F, 0), b = r_hf_v(F, 1), d = r_hf_v(F, 2);
+  return a != b && b != d && a != d && r_apex(c, F) >= 0;
+}
+// reference tuple: vertices of halfface h (of cell c) in stored cyclic order from position `start`, then the apex
+static inline void r_tuple(int c, int h, int start, int out[4]) {
+  out[0] = r_hf_v(h, start % 3); out[1] = r_hf_v(h, (start + 1) % 3); out[2] = r_hf_v(h, (start + 2) % 3); out[3] = r_apex(c, h);
+}
+// the cell's halfface whose stored vertex cycle is a rotation of (x,y,z); -1 if none
+static inline int r_cell_hf_with_cycle(int c, int x, int y, int z) {
+  int r = -1;
+  for (int k = 0; k < 4; ++k) {
+    int h = r_chf(c, k), p = r_hf_pos(h, x);
+    if (p >= 0 && r_hf_v(h, (p + 1) % 3) == y && r_hf_v(h, (p + 2) % 3) == z) r = h;
+  }
   return r;
 }
-// does cell c (4 triangular halffaces) have exactly four distinct vertices: its first halfface has three distinct ones and all other
-// vertices on its halffaces are one and the same further vertex
-static inline bool bf_cell_4verts(const Snap &s, int c) {
-  int F = s.chf[c][0], a = bf_hf_v(s, F, 0), b = bf_hf_v(s, F, 1), d = bf_hf_v(s, F, 2);
-  return a != b && b != d && a != d && bf_apex(s, c, F) >= 0;
+static inline bool r_cell_lists_he(int c, int he) {
+  bool r = false;
+  for (int k = 0; k < 4; ++k) if (r_hf_pos_he(r_chf(c, k), he) >= 0) r = true;
+  return r;
 }
-// reference vertex tuple of a cell: vertices of halfface hfh (one of its halffaces) in stored cyclic order from position `start`, then the apex
-static inline void bf_tuple(const Snap &s, int c, int hfh, int start, int out[4]) {
-  out[0] = bf_hf_v(s, hfh, start % 3); out[1] = bf_hf_v(s, hfh, (start + 1) % 3); out[2] = bf_hf_v(s, hfh, (start + 2) % 3); out[3] = bf_apex(s, c, hfh);
-}
+
 // parity (0 even, 1 odd) of the permutation taking tuple p to tuple q; -1 if they are not permutations of 4 distinct values
 static inline int perm_parity(const int p[4], const int q[4]) {
   int idx[4];
@@ -82,16 +136,14 @@ static inline bool vec_is(const std::vector<VH> &r, int a, int b, int c, int d) 
 static inline bool vec_is3(const std::vector<VH> &r, int a, int b, int c) {
   return r.size() == 3 && r[0].idx() == a && r[1].idx() == b && r[2].idx() == c;
 }
-// live, well-shaped tets only
-static inline bool bf_live_tet(const Snap &s, int c) { return c >= 0 && c < s.nC && !s.cdel[c] && s.cval[c] == 4; }
 
-// shape invariants through the PUBLIC API (valence()) for every stored face / cell, plus 4 distinct vertices for live cells
+// shape invariants: every stored face has three edges, every stored cell four faces (public API valence() and the stored
+// definitions), every live cell four distinct vertices.  Builds the reference tables.
 static void check_shape(const TetMesh &m, const Snap &s) {
   v_assert(!s.overflow, "C15 harness capacity (snapshot) suffices");
+  ref_build(s);
   if (s.overflow) return;
   for (int f = 0; f < s.nF; ++f) v_assert(m.valence(FH(f)) == 3 && s.fval[f] == 3, "C15 every face of a tetrahedral mesh has three edges");
-  for (int c = 0; c < s.nC; ++c) {
-    v_assert(m.valence(CH(c)) == 4 && s.cval[c] == 4, "C15 every cell of a tetrahedral mesh has four faces");
-    if (s.cval[c] == 4 && !s.cdel[c]) v_assert(bf_cell_4verts(s, c), "C15 every live cell has four distinct vertices");
-  }
+  for (int c = 0; c < s.nC; ++c) v_assert(m.valence(CH(c)) == 4 && s.cval[c] == 4, "C15 every cell of a tetrahedral mesh has four faces");
+  if (R_ok) for (int c = 0; c < s.nC; ++c) if (!s.cdel[c]) v_assert(r_cell_4verts(c), "C15 every live cell has four distinct vertices");
 }
